@@ -87,10 +87,11 @@ PROPS = {
         "assumptions": [
             "CometBFT's per-transaction protobuf framing overhead is not counted by the code and not by the model (max_tx_bytes is compared with the sum "
             "of the raw item lengths, as block_size_constraints.rs does)",
-            "C06_prepare_then_process_accepts_partial needs two provisos forced by the unchanged code: every included transaction is constructible "
-            "against the block-start state (fails for dependent transactions: open finding F11), and the proposal does not carry the empty "
-            "extended-commit-info fallback item, i.e. the extended commit info fitted into max_tx_bytes (otherwise no node can parse it: open finding F12); both counterexamples "
-            "are proved on the as-is model and reproduced on the real code (corpus/abci.ops)",
+            "C06_prepare_then_process_accepts_partial needs one proviso forced by the unchanged code: every included transaction is constructible "
+            "against the block-start state (fails for dependent transactions: open finding F11; counterexample proved on the as-is model and "
+            "reproduced on the real code, corpus/abci.ops). The former second proviso (the extended commit info fits into max_tx_bytes, F12) "
+            "was removed after `fix:` commit 259c046; C06_eci_fallback_counterexample is about the pinned behaviour (stepPrepareOriginal) and "
+            "also shows that the repaired prepare is accepted",
             "pre-Aspen untyped data (two raw 32-byte roots) is not modelled (all generated heights are post-Aspen); the Blackburn activation height "
             "with its upgrade-change-hashes item is exercised",
             "vote-extension validity, commitment recomputation and transaction execution are oracles of the replay (observed per line), not modelled",
@@ -121,13 +122,13 @@ TEXT = {
     "C06": {
         "text": "Lean 4 theorems for all builder queues, execution outcomes and max_tx_bytes: a prepared proposal stays within the CometBFT byte "
                 "limit and the 256 000-byte sequenced-data limit, is ordered by action group, and contains only transactions that executed "
-                "successfully or failed non-fatally; ProcessProposal on the same committed state accepts it (under two provisos the unchanged "
-                "code forces, each with a proved and reproduced counterexample); ProcessProposal accepts only well-formed, constructible, "
+                "successfully or failed non-fatally; ProcessProposal on the same committed state accepts it (under the one proviso the unchanged "
+                "code still forces, with a proved and reproduced counterexample: F11); ProcessProposal accepts only well-formed, constructible, "
                 "group-ordered, within-limit proposals whose commitments match, hence rejects every listed mutation class. Every run drives the "
                 "real prepare_proposal / process_proposal over generated mempools, a sweep of limits and 15 mutation kinds and replays each line.",
         "design_ref": "DESIGN.md §6 C06",
-        "note": "Trusted: Lean kernel, hand-written model, harness/driver. Open findings F11 (dependent transactions rejected by validators) and "
-                "F12 (empty extended-commit-info fallback is unparseable) reported with replays.",
+        "note": "Trusted: Lean kernel, hand-written model, harness/driver. Open finding F11 (dependent transactions rejected by validators) "
+                "reported with replay. F12 (empty extended-commit-info fallback was unparseable) was found by this check and repaired (fix: 259c046).",
         "technique": "Lean 4 proof (loop invariants by induction over the queue) + differential correspondence with the Rust code",
     },
 }
@@ -155,13 +156,5 @@ KNOWN_FINDINGS = [
                 "later transaction is only valid after an earlier one of the same block is rejected by every validator",
         "match": {"monitor": "honest_accepted", "line_regex": r"tags=unconstructible"},
         "replay": "corpus/abci.ops (second session)",
-    },
-    {
-        "property": "C06", "status": "open", "id": "F12",
-        "what": "when the extended commit info does not fit into max_tx_bytes, prepare_proposal substitutes DataItem::ExtendedCommitInfo(empty bytes), "
-                "which ExpandedBlockData::new_from_typed_data rejects ('field not set: extended_commit_info'): the proposal is rejected by every node "
-                "including the proposer",
-        "match": {"monitor": "honest_accepted", "line_regex": r"tags=eci-fallback"},
-        "replay": "corpus/abci.ops (third session)",
     },
 ]
